@@ -660,8 +660,16 @@ def emit_afm(ref, rng):
         lines.append("")
     lines.append("%Constraints")
     for ctc in ref["ctcs"]:
-        lines.append(afm_expr(ctc["e"], rng) + ";")
-    return "\n".join(lines) + "\n", {"choices": []}
+        block = ctc.get("block")
+        if block:
+            # a brackets block 'Feature { ... }': the names inside are local to that feature
+            # (the constraint is about Feature.A, Feature.B, ...); `block_expr` is what is
+            # written inside the braces
+            lines.append("%s%s{%s%s;%s}" % (block, sp, sp, afm_expr(ctc["block_expr"], rng), sp))
+        else:
+            lines.append(afm_expr(ctc["e"], rng) + ";")
+    return "\n".join(lines) + "\n", {"choices": ["brackets_block"] if any(
+        c.get("block") for c in ref["ctcs"]) else []}
 
 
 # =========================================================================== Glencoe JSON
